@@ -137,8 +137,22 @@ impl Frame {
         Ok(())
     }
 
+    // The address attribute has a one byte length: longer host names can not be encoded
+    pub fn check_header(&self) -> IoResult<()> {
+        if let Some(TargetAddress::DomainPort(host, _)) = &self.addr {
+            if host.len() + 2 > 255 {
+                return Err(IoError::new(
+                    ErrorKind::InvalidInput,
+                    "host name too long for a frame header",
+                ));
+            }
+        }
+        Ok(())
+    }
+
     // Write head and body to output stream
     pub async fn write_to<T: AsyncWrite + Unpin>(&self, output: &mut T) -> IoResult<usize> {
+        self.check_header()?;
         let head = self.make_header();
         output.write_all(&head).await?;
         output.write_all(&self.body).await?;
